@@ -103,7 +103,8 @@ def generate(tier, rng):
         r = rng.choice(ROUNDS)
         scalar = rng.random() < 0.6
         k = 1 if scalar else rng.choice([2, 4])
-        vals = [G.rand_scaled(rng, signed, n) / Fraction(2) ** f for _ in range(k)]
+        wide = rng.random() < 0.3
+        vals = [(G.rand_scaled_wide(rng, f) if wide else G.rand_scaled(rng, signed, n)) / Fraction(2) ** f for _ in range(k)]
         if not all(G.in_c01_domain(n, f, v) for v in vals):
             continue
         c = _pick_carrier(rng, vals, scalar)
